@@ -1,13 +1,17 @@
 (* C09 - A session with four conforming clients always runs to completion (every schedule).
    Only statements, each closed by [exact]; proofs are in the files imported below. *)
-From BE Require Import Model.Session Model.SessionTie Spec.SessionSpec Proofs.Kahn Proofs.Session Proofs.SessionExamples Proofs.SessionPassOut Proofs.Wire.
+From BE Require Import Model.Session Model.SessionTie Spec.SessionSpec Proofs.Kahn Proofs.Session Proofs.SessionExamples Proofs.SessionPassOut Proofs.Wire Model.Conform Proofs.SessionConform.
+From BE Require Import Gen.Skeleton Proofs.SkeletonPin.
 From Coq Require Import ZArith.
 Local Open Scope nat_scope.
 Local Open Scope list_scope.
-(* FULL STATEMENT (not proved in this form): for every non-empty board list, every arrival order seating four clients and every
-   conforming script, every maximal run of the network ends with every process returned.  What is proved: for EVERY input, all
-   schedules agree (below); that the canonical schedule completes is evaluated by vm_compute for each session exercised by the
-   check and for the examples below - hence the suffix _partial on the combined statement. *)
+(* FULL STATEMENT, PROVED (C09_conforming_sessions_complete / _every_schedule, Proofs/SessionConform.v): for every non-empty
+   board list (any deals, dealers, vulnerabilities, ids), any two team names and EVERY conforming behaviour of the four clients
+   (any legal auction of any length, any sequence of legal plays, every spelling of a call or card that the server parses - case,
+   alerts, either card notation), every schedule of the network of threads ends with every process returned and one log record
+   per board.  The four clients of these theorems connect in the order N, E, S, W; other arrival orders and extra requests are
+   covered up to the start of board 1 by the admission theorems of C20 (Proofs/SessionAdmission.v), and beyond by the
+   schedule-independence theorem plus the per-session evaluation (the statement that keeps the suffix _partial). *)
 (* every channel of the session network has one reader and one writer, for every input and every message that might arrive *)
 Theorem C09_ownership :
   forall x, wf_state msg (rd x) (wr x) cw (init_state x).
@@ -42,6 +46,12 @@ Theorem C09_canonical_run_is_a_run :
 Proof. exact canonical_run_sound. Qed.
 Print Assumptions C09_canonical_run_is_a_run.
 
+(* the synchronisation skeleton of server.py, re-extracted from the source on this run, is the one the session model was written against *)
+Theorem C09_server_skeleton_is_the_modelled_one :
+  server_skeleton = pinned_server_skeleton.
+Proof. exact server_skeleton_pinned. Qed.
+Print Assumptions C09_server_skeleton_is_the_modelled_one.
+
 (* if the canonical run of a session reaches a final state, every schedule of that session reaches exactly that state: no deadlock, no lost wake-up, however long a thread is delayed *)
 Theorem C09_every_schedule_completes_partial :
   forall fuel x s sched,
@@ -51,7 +61,27 @@ Theorem C09_every_schedule_completes_partial :
 Proof. exact every_schedule_reaches_canonical. Qed.
 Print Assumptions C09_every_schedule_completes_partial.
 
-(* FULL, symbolic and unbounded, for one infinite family: ANY non-empty list of boards (arbitrary deals, dealers, vulnerabilities, ids), four clients arriving N, E, S, W, everybody passing: a schedule exists that drives the network to the state where every process has returned, with a log of one record per board *)
+(* FULL, symbolic and unbounded: for every conforming session a schedule exists that drives the network to the state where every process has returned, with a log of one record per board *)
+Theorem C09_conforming_sessions_complete :
+  forall boards ns ew scripts,
+  boards <> [] -> no_quote ns -> no_quote ew -> conforming boards scripts = true ->
+  exists l f, srun l (init_state (conf_session boards ns ew scripts)) = Some f /\
+              Kahn.all_doneb msg f = true /\
+              exists recs, log_events 4 f = LOpen :: map LRec recs ++ [LClose] /\ length recs = length boards.
+Proof. exact conforming_session_completes. Qed.
+Print Assumptions C09_conforming_sessions_complete.
+
+(* hence EVERY schedule of every conforming session completes - no deadlock, no lost wake-up, however long a thread is delayed - in the same final state and within the same number of steps *)
+Theorem C09_conforming_sessions_every_schedule :
+  forall boards ns ew scripts,
+  boards <> [] -> no_quote ns -> no_quote ew -> conforming boards scripts = true ->
+  exists f n, Kahn.all_doneb msg f = true /\
+    forall l' s', srun l' (init_state (conf_session boards ns ew scripts)) = Some s' ->
+      length l' <= n /\ (sfinal s' -> s' = f).
+Proof. exact conforming_session_every_schedule. Qed.
+Print Assumptions C09_conforming_sessions_every_schedule.
+
+(* the special case proved first: ANY non-empty list of boards (arbitrary deals, dealers, vulnerabilities, ids), four clients arriving N, E, S, W, everybody passing: a schedule exists that drives the network to the state where every process has returned, with a log of one record per board *)
 Theorem C09_passed_out_sessions_complete :
   forall boards ns ew,
   boards <> [] -> no_quote ns -> no_quote ew ->
